@@ -92,6 +92,29 @@ func c15Items(c *Ctx) []pgen.FItem {
 		s := pgen.RandSig(r, 2, 5, 3, valueTypes)
 		add([]string{"curry", "flip", "apply", "uncurry"}[r.Intn(4)], s)
 	}
+	// named results (err, f, success, ...) together with every parameter naming mode
+	for mi, mode := range modes {
+		if mode == "reserved" {
+			continue // its parameter names (f, err, ...) are the result names used here
+		}
+		for nr := 1; nr <= 3; nr++ {
+			for _, kind := range []string{"curry", "flip", "apply", "uncurry"} {
+				s := pgen.FSig{Mode: mode, NamedResults: true}
+				for i := 0; i < 2+(mi+nr)%2; i++ {
+					s.P = append(s.P, valueTypes[(mi*5+nr*3+i*7+len(kind))%len(valueTypes)])
+				}
+				for i := 0; i < nr; i++ {
+					s.R = append(s.R, []string{"error", "int", "string", "bool"}[(mi+nr+i)%4])
+				}
+				add(kind, s)
+			}
+		}
+	}
+	// a result that is itself a function (Uncurry must stop at the first level)
+	add("curry", pgen.FSig{P: []string{"int", "string"}, R: []string{"func(int) int"}, Mode: "named"})
+	add("uncurry", pgen.FSig{P: []string{"int", "bool"}, R: []string{"func(string) int"}, Mode: "named"})
+	add("uncurrycurry", pgen.FSig{P: []string{"NInt", "int", "NStr"}, R: []string{"func() int"}, Mode: "named"})
+	add("flip", pgen.FSig{P: []string{"string", "int"}, R: []string{"func(int, string) bool"}, Mode: "named"})
 	// a dictionary of parameter names a generator might itself use for the variables it introduces: each
 	// name once at the first, a middle and the last position of a function whose parameters all have the
 	// same type (so that a capture or shadowing type-checks and only shows in the position-tagged values)
